@@ -157,13 +157,24 @@ func rejectClass(kind string, err error) string {
 	return kind + ": " + m
 }
 
-// Run executes the generated tier.
+// Run executes the generated tier: programs are drawn through rapid's seeded example API.
 func Run(t *testing.T, r *vk.Rec, opt Options) {
-	oracle := opt.Oracle
 	n := r.N(opt.Quick, opt.Thorough)
 	gen := rapid.Custom(func(t *rapid.T) *xsugar.Program {
 		return opt.Program(&xsugar.G{T: t})
 	})
+	var progs []*xsugar.Program
+	for i := 0; i < n; i++ {
+		progs = append(progs, vk.Example(r, gen, 1, i))
+	}
+	RunPrograms(t, r, opt, progs)
+}
+
+// RunPrograms evaluates the given programs (batches of 40, one go build each) and stops after
+// the first batch with a violation.
+func RunPrograms(t *testing.T, r *vk.Rec, opt Options, all []*xsugar.Program) {
+	oracle := opt.Oracle
+	n := len(all)
 	const batch = 40
 	failed := false
 	for start := 0; start < n && !failed; start += batch {
@@ -174,7 +185,7 @@ func Run(t *testing.T, r *vk.Rec, opt Options) {
 		var progs []*xsugar.Program
 		var pairs []diffrun.Pair
 		for i := start; i < end; i++ {
-			p := vk.Example(r, gen, 1, i)
+			p := all[i]
 			// drop items of known-finding classes, and items cl rejects
 			var kept []xsugar.Item
 			for _, it := range p.Items {
